@@ -134,8 +134,8 @@ def _compute(ctx):
         for p in ctx.paths(f):
             r.paths += 1
             for s in ctx.sites_on_path(p):
-                if s["kind"] != "rmw" or s["outcome"] != "ok":
-                    continue
+                if s["kind"] != "rmw" or s["outcome"] != "ok" or s.get("virtual"):
+                    continue      # (a write that is skipped because it would change nothing is no access)
                 dec = [k for k in ("strong", "weak") if s["delta"].get(k, (0,))[0] < 0]
                 if not dec:
                     continue
